@@ -50,7 +50,8 @@ static Case gen_case() {
         case T_CHUNKED_10: version = rcx::coin() ? "HTTP/1.0" : "HTTP/0.9"; hdrs.push_back(HF("Transfer-Encoding", te_value(true))); chunk_it(); c.want = HTP_REQUEST_SMUGGLING; c.want_name = "HTP_REQUEST_SMUGGLING"; break;
         case T_BAD_CL: { static const std::vector<std::string> bad = {"abc", "", "x y", "99999999999999999999999", "18446744073709551616", "--", ","}; hdrs.push_back(H("Content-Length", rcx::pick(bad))); c.want = HTP_REQUEST_INVALID; c.want_name = "HTP_REQUEST_INVALID"; break; }
         case T_BAD_TE: hdrs.push_back(H("Transfer-Encoding", te_value(false))); if (rcx::coin()) hdrs.push_back(H("Content-Length", std::to_string(body.size()))); c.want = HTP_REQUEST_INVALID; c.want_name = "HTP_REQUEST_INVALID"; break;
-        case H_AMBIG_HOST: target = "http://" + rcase("other.example") + target; hdrs.push_back(H("Content-Length", std::to_string(body.size()))); c.want = HTP_HOST_AMBIGUOUS; c.want_name = "HTP_HOST_AMBIGUOUS"; break;
+        case H_AMBIG_HOST: { int pv = rcx::range(0, 3); std::string port = ":" + std::to_string(rcx::range(1, 65535)); // different names; no port / the same port on both sides / a port on one side only
+            target = "http://" + rcase("other.example") + (pv == 1 || pv == 2 ? port : "") + target; if (pv == 1 || pv == 3) host += port; } hdrs.push_back(H("Content-Length", std::to_string(body.size()))); c.want = HTP_HOST_AMBIGUOUS; c.want_name = "HTP_HOST_AMBIGUOUS"; break;
         case H_AMBIG_PORT: { int p1 = rcx::range(1, 65535), p2 = rcx::range(1, 65535); if (p2 == p1) p2 = p1 % 65535 + 1; target = "http://" + host + ":" + std::to_string(p1) + target; host += ":" + std::to_string(p2); hdrs.push_back(H("Content-Length", std::to_string(body.size()))); c.want = HTP_HOST_AMBIGUOUS; c.want_name = "HTP_HOST_AMBIGUOUS"; break; }
         case H_MISSING: add_host = false; hdrs.push_back(H("Content-Length", std::to_string(body.size()))); c.want = HTP_HOST_MISSING; c.want_name = "HTP_HOST_MISSING"; break;
         case H_INVALID_URI: { std::string bh = bad_host(); while (bh.find(' ') != std::string::npos) bh = bad_host(); target = "http://" + bh + target; add_host = rcx::coin(); hdrs.push_back(H("Content-Length", std::to_string(body.size()))); c.want = HTP_HOSTU_INVALID; c.want_name = "HTP_HOSTU_INVALID"; break; }
@@ -67,6 +68,7 @@ static Case gen_case() {
     if (c.trig == R_TE_CL || c.trig == R_MULTI_CL) {
         std::vector<std::string> rh; std::string rbody = "xyz", rwire = rbody;
         if (c.trig == R_TE_CL) { rh.push_back(H("Transfer-Encoding", rcase("chunked"))); rh.push_back(H("Content-Length", std::to_string(rcx::range(0, 20)))); rwire = "3" + eol + rbody + eol + "0" + eol + eol; }
+        else if (rcx::chance(1, 3)) { rh.push_back(H("Content-Length", "0")); rh.push_back(H("Content-Length", rcx::coin() ? "0" : "12")); if (rcx::coin()) rh.push_back(H("Content-Length", "12")); rwire.clear(); } // the first (effective) value is 0: no body follows
         else { rh.push_back(H("Content-Length", "3")); rh.push_back(H("Content-Length", rcx::coin() ? "3" : "7")); }
         rh.push_back(H("X-R", "1")); for (size_t i = rh.size(); i > 1; i--) std::swap(rh[i - 1], rh[(size_t)rcx::range(0, (int)i - 1)]);
         c.res = "HTTP/1.1 200 OK" + eol; for (auto &h : rh) c.res += h + eol; c.res += eol + rwire;
